@@ -288,6 +288,110 @@ Proof.
   exists x'. split; [exact A1|]. lia.
 Qed.
 
+
+(* ---- converse: the guard only removes behaviours; a value accepted under the guard is the value the
+        unguarded decoder returns ---- *)
+Definition dsimr (du dg : dec_k) : Prop := forall d kl su x v sg',
+  dg d kl (with_bud x su) = (Val v, sg') ->
+  exists su' x', du d kl su = (Val v, su') /\ sg' = with_bud x' su'.
+Definition asimr (au ag : arr_k) : Prop := forall d kl n su acc x v sg',
+  ag d kl n (with_bud x su) acc = (Val v, sg') ->
+  exists su' x', au d kl n su acc = (Val v, su') /\ sg' = with_bud x' su'.
+Definition msimr (mu mg : map_k) : Prop := forall d kl n su acc last x v sg',
+  mg d kl n (with_bud x su) acc last = (Val v, sg') ->
+  exists su' x', mu d kl n su acc last = (Val v, su') /\ sg' = with_bud x' su'.
+
+Lemma reserve_cg_inv n x s s' : reserve cg n (with_bud x s) = Some s' -> s' = with_bud (x - n) s.
+Proof.
+  unfold reserve. cbn [guard cg bud with_bud]. destruct (x <? n); [discriminate|].
+  intros X; inversion X. reflexivity.
+Qed.
+
+Lemma dec_step_simr au ag mu mg : asimr au ag -> msimr mu mg -> dsimr (dec_step cu b au mu) (dec_step cg b ag mg).
+Proof.
+  intros Has Hms d kl su x v sg' H.
+  unfold dec_step in H |- *. rewrite depth_cu.
+  change (enter d (with_bud x su)) with (with_bud x (enter d su)) in H.
+  destruct (depth_exceeded cg d); [discriminate|].
+  rewrite head_cg in H.
+  destruct (head cu b (enter d su)) as [o1 s1].
+  destruct o1 as [b0| | |]; try (cbn [cast] in H; discriminate).
+  cbv zeta in H |- *. cbn [idx with_bud] in H.
+  rewrite !read_len_cg in H. change (as_usize cg) with (as_usize cu) in H.
+  destruct (b0 / 32 =? 4).
+  { destruct (read_len cu b (idx s1) (b0 mod 32)) as [[n i]| | |]; try (cbn [cast] in H; discriminate).
+    change (set_idx (with_bud x s1) i) with (with_bud x (set_idx s1 i)) in H.
+    rewrite reserve_cu.
+    destruct (reserve cg (as_usize cu n) (with_bud x (set_idx s1 i))) as [sr|] eqn:Er; [|discriminate].
+    apply reserve_cg_inv in Er. subst sr. rewrite with_cap_cg in H.
+    destruct (with_cap cu (as_usize cu n) size_value kl (set_idx s1 i)) as [s3|]; [|discriminate].
+    exact (Has _ _ _ _ _ _ _ _ H). }
+  destruct (b0 / 32 =? 5).
+  { destruct (read_len cu b (idx s1) (b0 mod 32)) as [[n i]| | |]; try (cbn [cast] in H; discriminate).
+    change (set_idx (with_bud x s1) i) with (with_bud x (set_idx s1 i)) in H.
+    rewrite reserve_cu.
+    destruct (reserve cg (as_usize cu n) (with_bud x (set_idx s1 i))) as [sr|] eqn:Er; [|discriminate].
+    apply reserve_cg_inv in Er. subst sr. rewrite with_cap_cg in H.
+    destruct (with_cap cu (as_usize cu n) size_entry kl (set_idx s1 i)) as [s3|]; [|discriminate].
+    exact (Hms _ _ _ _ _ _ _ _ _ H). }
+  rewrite dec_scalar_cg in H.
+  destruct (dec_scalar cu b (b0 / 32) (b0 mod 32) kl s1) as [o s'].
+  inversion H; subst. exists s', x. split; reflexivity.
+Qed.
+
+Lemma arr_step_simr du dg au ag : dsimr du dg -> asimr au ag -> asimr (arr_step du au) (arr_step dg ag).
+Proof.
+  intros Hds Has d kl n su acc x v sg' H.
+  unfold arr_step in H |- *. destruct (n =? 0).
+  { inversion H; subst. exists su, x. split; reflexivity. }
+  destruct (dg (d + 1) kl (with_bud x su)) as [o sg1] eqn:E1.
+  destruct o as [v1| | |]; try (cbn [cast] in H; discriminate).
+  destruct (Hds _ _ _ _ _ _ E1) as [s1 [x1 [G1 G2]]]. subst sg1. rewrite G1.
+  exact (Has _ _ _ _ _ _ _ _ H).
+Qed.
+
+Lemma map_step_simr du dg mu mg : dsimr du dg -> msimr mu mg -> msimr (map_step b du mu) (map_step b dg mg).
+Proof.
+  intros Hds Hms d kl n su acc last x v sg' H.
+  unfold map_step in H |- *. destruct (n =? 0).
+  { inversion H; subst. exists su, x. split; reflexivity. }
+  cbv zeta in H |- *. cbn [idx with_bud] in H.
+  set (ll := match last with Some p => lenN p | None => 0 end) in *.
+  destruct (dg (d + 1) (kl + ll) (with_bud x su)) as [o sg1] eqn:E1.
+  destruct o as [k| | |]; try (cbn [cast] in H; discriminate).
+  destruct (Hds _ _ _ _ _ _ E1) as [s1 [x1 [G1 G2]]]. subst sg1. rewrite G1.
+  cbn [idx with_bud] in H.
+  destruct (slice b (idx su) (idx s1)) as [kb| | |]; try (cbn [cast] in H; discriminate).
+  destruct (key_order kb last); [discriminate|].
+  change (touch (lenN kb) (kl + ll) (with_bud x1 s1)) with (with_bud x1 (touch (lenN kb) (kl + ll) s1)) in H.
+  destruct (dg (d + 1) (kl + lenN kb) (with_bud x1 (touch (lenN kb) (kl + ll) s1))) as [o2 sg3] eqn:E2.
+  destruct o2 as [w| | |]; try (cbn [cast] in H; discriminate).
+  destruct (Hds _ _ _ _ _ _ E2) as [s3 [x3 [K1 K2]]]. subst sg3. rewrite K1.
+  exact (Hms _ _ _ _ _ _ _ _ _ H).
+Qed.
+
+Lemma simr_all f :
+  dsimr (dec cu b f) (dec cg b f) /\ asimr (arr_items cu b f) (arr_items cg b f) /\ msimr (map_items cu b f) (map_items cg b f).
+Proof.
+  induction f as [|f [IHd [IHa IHm]]].
+  - repeat split; intros *; intros X; cbn in X; discriminate.
+  - split; [|split].
+    + exact (dec_step_simr _ _ _ _ IHa IHm).
+    + exact (arr_step_simr _ _ _ _ IHd IHa).
+    + exact (map_step_simr _ _ _ _ IHd IHm).
+Qed.
+
+Theorem guard_sound_val v : result (dec_pa cg b) = Val v -> result (dec_pa cu b) = Val v.
+Proof.
+  unfold result, dec_pa.
+  change (st0 b) with (with_bud L (st0 b)) at 1.
+  destruct (dec cg b (fuel_for b) 0 0 (with_bud L (st0 b))) as [o sg'] eqn:E.
+  destruct o as [v0| | |]; cbn [fst snd]; try discriminate.
+  destruct (simr_all (fuel_for b)) as [Hs _].
+  destruct (Hs _ _ _ _ _ _ E) as [su' [x' [G1 G2]]]. subst sg'. rewrite G1.
+  cbn [idx with_bud]. destruct (idx su' =? L); cbn [fst]; [|discriminate]. exact (fun X => X).
+Qed.
+
 Lemma sim_all f :
   dsim (dec cu b f) (dec cg b f) /\ asim (arr_items cu b f) (arr_items cg b f) /\ msim (map_items cu b f) (map_items cg b f).
 Proof.
@@ -317,6 +421,10 @@ Proof.
   cbn [idx with_bud fst]. apply N.eqb_eq in Ei. rewrite Ei. reflexivity.
 Qed.
 End Sim.
+
+Theorem guard_sound_64 (b : bytes) v :
+  result (dec_pa cfg_guarded b) = Val v -> result (dec_pa cfg_unguarded b) = Val v.
+Proof. exact (guard_sound_val cfg_unguarded b guard_depth eq_refl eq_refl v). Qed.
 
 Theorem guard_transparent_64 (b : bytes) v :
   lenN b <= usize_max cfg_unguarded ->
